@@ -87,6 +87,10 @@ class _TreeVisitor(TagTemplateParserVisitor):
             pipe_tags = self.visitPipeList(pipe_list)
             context = PatternElementSequence(pattern_elements[:-1])
             for tag_placeholder in pipe_tags:
+                if tag_placeholder.context is not None:
+                    raise TemplateSyntaxError(
+                        message=f"tag '{tag_placeholder.tag_name}' in the pipe list cannot have its own context"
+                    ).with_location(tag_placeholder.location)
                 tag_placeholder.context = context
                 context = PatternElementSequence([tag_placeholder])
             return context
